@@ -14,6 +14,8 @@ import (
 // 使用 HMAC-SM3(secret, clientAddr || clientParams)
 func generateCookie(secret []byte, clientAddr string, clientParams []byte) []byte {
 	h := hmac.New(sm3.New, secret)
+	// 地址为变长字段：先写入其长度，保证 (地址, 参数) 到 MAC 输入的映射是单射
+	h.Write([]byte{byte(len(clientAddr) >> 8), byte(len(clientAddr))})
 	h.Write([]byte(clientAddr))
 	h.Write(clientParams)
 	return h.Sum(nil)
